@@ -190,8 +190,25 @@ def run_grammar(R, N, D):
                 canon_digits = s[len(got[1]) + 2:]
                 if canon_digits == str(got[2]) and reg.get_env_id(got[1], got[2]) != s:
                     bad.append({"id": s, "format_back": reg.get_env_id(got[1], got[2])})
+    # one disallowed character glued to the FRONT or the END of a well-formed id (the exhaustive sweep above stops at 4 characters, so
+    # 'a-v0' + one more character is beyond it): anchoring mistakes such as re.match + '$' (which also matches before a final newline)
+    # or a missing '^' only show there
+    good = ["a-v0", "A_1-v10", "Maze-v0", "Sudoku-very-easy-v0", "x.y:z-v007", "a-v-v3"]
+    glue = ["\n", "\r", "\r\n", "\n\n", " ", "\t", "\x00", "\x0b", "\x0c", "\x1c", "\x85", "\u2028", "/", "é", "٣", "-", "v", "-v"]
+    for g_ in good:
+        for c_ in glue:
+            for s in (g_ + c_, c_ + g_, g_[:-1] + c_ + g_[-1:]):
+                want = model_parse(s, full, name_re, ver_re)
+                try:
+                    got = ("ok",) + tuple(reg.parse_env_id(s))
+                except ValueError:
+                    got = ("err",)
+                n_checked += 1
+                classes[got[0]] += 1
+                if want != got:
+                    bad.append({"id": s, "model": str(want), "real": str(got)})
     R.validated += n_checked
-    R.structural(f"hand model of parse_env_id == real parse_env_id on all {n_checked} probe strings (|id| <= 4); canonical ids format back to themselves",
+    R.structural(f"hand model of parse_env_id == real parse_env_id on all {n_checked} probe strings (|id| <= 4, plus well-formed ids with one foreign character glued on); canonical ids format back to themselves",
                  not bad, {"disagreements": bad[:5], "classes": classes})
     # every string outside the language and every version-less name is rejected (classes enumerated from the z3 model, real function run on each)
     s_ = z3.String("s")
@@ -332,6 +349,60 @@ def run_registry(R):
     R.sample({"id_pairs": n_pairs})
 
 
+def _shape(st, path):
+    import jax
+    d = {jax.tree_util.keystr(p): tuple(x.shape) for p, x in jax.tree_util.tree_leaves_with_path(st)}
+    return d.get(path)
+
+
+def _db_consts(closed):
+    """closed-over constants of the reset program that look like a Sudoku database (N, 9, 9)"""
+    return [np.asarray(c) for c in closed.consts if getattr(c, "ndim", 0) == 3 and tuple(c.shape[1:]) == (9, 9)]
+
+
+# documented configuration of every shipped id (jumanji/__init__.py registration comments, docs/environments/*.md): class, time limit
+# and the sizes/constants the documentation names, each recomputed from the instantiated environment (state shapes of reset, which
+# hold for every key; constants closed over by the reset program; reset values on PRNGKey(0) for scalar parameters)
+DOC = {
+    "Game2048-v1": ("Game2048", None, {".board": (4, 4)}),
+    "GraphColoring-v0": ("GraphColoring", None, {".adj_matrix": (20, 20)}),
+    "Minesweeper-v0": ("Minesweeper", None, {".board": (10, 10), ".flat_mine_locations": (10,)}),
+    "RubiksCube-v0": ("RubiksCube", 200, {".cube": (6, 3, 3)}),
+    "RubiksCube-partly-scrambled-v0": ("RubiksCube", 20, {".cube": (6, 3, 3)}),
+    "Sudoku-v0": ("Sudoku", None, {".board": (9, 9)}),
+    "Sudoku-very-easy-v0": ("Sudoku", None, {".board": (9, 9)}),
+    "BinPack-v2": ("BinPack", None, {".items_mask": (20,), ".ems_mask": (40,)}),
+    "FlatPack-v0": ("FlatPack", None, {".blocks": (25, 3, 3), ".grid": (11, 11)}),
+    "JobShop-v0": ("JobShop", None, {".ops_durations": (20, 8), ".machines_job_ids": (10,)}),
+    "Knapsack-v1": ("Knapsack", None, {".weights": (50,)}),
+    "Tetris-v0": ("Tetris", 400, {".grid_padded": (13, 13)}),
+    "Cleaner-v0": ("Cleaner", 100, {".grid": (10, 10), ".agents_locations": (3, 2)}),
+    "Connector-v2": ("Connector", 50, {".grid": (10, 10), ".agents.position": (10, 2)}),
+    "MMST-v0": ("MMST", 70, {".adj_matrix": (36, 36), ".nodes_to_connect": (3, 4)}),
+    "CVRP-v1": ("CVRP", None, {".coordinates": (21, 2)}),
+    "MultiCVRP-v0": ("MultiCVRP", None, {".nodes.coordinates": (21, 2), ".vehicles.capacities": (2,)}),
+    "Maze-v0": ("Maze", 100, {".walls": (10, 10)}),
+    "RobotWarehouse-v0": ("RobotWarehouse", 500, {".agents.direction": (4,), ".request_queue": (8,), ".shelves.is_requested": (80,), ".grid": (2, 20, 10)}),
+    "Snake-v1": ("Snake", 4000, {".body": (12, 12)}),
+    "TSP-v1": ("TSP", None, {".coordinates": (20, 2)}),
+    "Sokoban-v0": ("Sokoban", 120, {".fixed_grid": (10, 10)}),
+    "PacMan-v1": ("PacMan", 1000, {".grid": (31, 28)}),
+    "SlidingTilePuzzle-v0": ("SlidingTilePuzzle", 500, {".puzzle": (5, 5)}),
+    "LevelBasedForaging-v0": ("LevelBasedForaging", 100, {".agents.level": (2,), ".food_items.level": (2,)}),
+}
+# scalar parameters the documentation names, read off reset(PRNGKey(0)) / the reset program's constants
+DOC_VALUES = {
+    "Knapsack-v1": [("total budget 12.5", lambda e, s, c: abs(float(s.remaining_budget) - 12.5) < 1e-6)],
+    "CVRP-v1": [("maximum capacity 30", lambda e, s, c: int(s.capacity) == 30), ("demands <= 10", lambda e, s, c: int(np.max(np.asarray(s.demands))) <= 10)],
+    "MultiCVRP-v0": [("vehicle capacity 60", lambda e, s, c: [int(x) for x in np.asarray(s.vehicles.capacities)] == [60, 60])],
+    "Sudoku-v0": [("database of 10000 mixed puzzles", lambda e, s, c: [d.shape[0] for d in _db_consts(c)] == [10000])],
+    "Sudoku-very-easy-v0": [("database of 1000 puzzles", lambda e, s, c: [d.shape[0] for d in _db_consts(c)] == [1000]),
+                            ("every puzzle of the database has >= 46 clues (very easy)", lambda e, s, c: all(int(((d > 0).reshape(d.shape[0], -1).sum(1)).min()) >= 46 for d in _db_consts(c)))],
+    "RubiksCube-partly-scrambled-v0": [("7 scrambles on reset", lambda e, s, c: int(getattr(e.generator, "num_scrambles_on_reset", -1)) == 7)],
+    "LevelBasedForaging-v0": [("grid size 8", lambda e, s, c: int(getattr(e, "_generator", getattr(e, "generator", None)).grid_size) == 8)],
+}
+
+
 def run_shipped(R, env_id):
     """every shipped id instantiates; two make(id) give equal specs and the same step/reset program"""
     import jax
@@ -348,6 +419,32 @@ def run_shipped(R, env_id):
         R.structural(f"make({env_id!r}) instantiates", False, {"error": repr(e)[:300]})
         return
     R.structural(f"make({env_id!r}) instantiates", True)
+    # the id yields its DOCUMENTED configuration
+    doc = DOC.get(env_id)
+    if doc is None:
+        R.structural(f"{env_id}: has an entry in the documented-configuration table of this check", False, {"id": env_id, "note": "new shipped id: add its documented configuration"})
+    else:
+        cls_, T_, shapes = doc
+        key0 = jax.random.PRNGKey(0)
+        st_sh, _ = jax.eval_shape(e1.reset, key0)
+        wrong = []
+        if type(e1).__name__ != cls_:
+            wrong.append(f"class {type(e1).__name__} != {cls_}")
+        if T_ is not None and getattr(e1, "time_limit", None) != T_ and "generator" not in kw:
+            wrong.append(f"time_limit {getattr(e1, 'time_limit', None)} != {T_}")
+        if "generator" not in kw:
+            for pth, shp in shapes.items():
+                if _shape(st_sh, pth) != shp:
+                    wrong.append(f"state{pth} shape {_shape(st_sh, pth)} != documented {shp}")
+            closed = jax.make_jaxpr(e1.reset)(key0)
+            s0, _ = jax.jit(e1.reset)(key0)
+            for label, fn in DOC_VALUES.get(env_id, []):
+                try:
+                    if not fn(e1, s0, closed):
+                        wrong.append(label)
+                except Exception as e:  # noqa
+                    wrong.append(f"{label}: {type(e).__name__}: {str(e)[:80]}")
+        R.structural(f"make({env_id!r}) yields its documented configuration (class, time limit, documented sizes and constants)", not wrong, {"id": env_id, "mismatch": wrong})
     bad = []
     for label in ("observation_spec", "action_spec", "reward_spec", "discount_spec"):
         try:
